@@ -48,6 +48,17 @@ What the misses taught, and what was strengthened because of them:
   gained the `TrkAgrees` clause: what the B-tree reports to its ItemActionTracker must be exactly the ids that left /
   entered / changed in the contents.  The revert of 73905dbc is caught by C20's random histories with probability
   about 0.6 per seed, so three directed standalone scripts (L2 clear, partial re-caching, multi-node commit) were added.
+* C13-mutant2 (an in-place digit overwrite that keeps the old trailing digits when the count loses a decimal digit:
+  100 -> 99 is stored as 990) was missed by C13 because its random programs use 8 keys and the count never reached 10:
+  `genTide` (every third C13 program) now drives one adversarially named store through the counts 12, 9, 10, 0, 100+x,
+  99, 100, 99, 9, one commit each, with a cold child-process observation after every commit; detected since.
+* Session 4 round (C04, C12, C13 x2, C16 x2): C12-mutant1 (only the first of several stores created by a rolled-back
+  transaction is removed), C13-mutant1 (a name/description that *is* a field name is patched as if it were the key),
+  C16-mutant1 (rollback fan-out stops at the first participant whose Rollback fails) and C16-mutant2 (a Phase1 failure
+  of a non-last participant is overwritten by the last one's success) were detected at once by the property's own
+  check.  The C04 candidate (replayed Update writes the refetched item back) made two existing `common` tests fail
+  (`Test_RefetchAndMerge_Update*_InNodeSegment_Succeeds`), so it is not a qualifying change and was not kept; C04's
+  quick check did report it (`union-differs:own-write-not-visible:Update`).
 * Still missed: C08-mutant1 and C10-mutant2 live entirely in the expired-log / priority-rollback recovery code, which
   no public path reaches (finding C09-K1): nothing the harness can drive executes the changed lines.
 * Detected only by a *neighbouring* property's check (the listed property's own check does not see them because the
